@@ -268,3 +268,109 @@ func updaterField(p *eng.Prog, role string) string {
 	}
 	return ""
 }
+
+// fieldInfoField: fields of setec.fieldInfo by role, so that renaming them
+// changes nothing: "vtype" the reflect.Type, "value" the reflect.Value,
+// "isJSON" the only bool, "unmarshal" the only func, "secretName" the string
+// that parseFields does not fill from reflect.StructField.Name (that one is
+// "fieldName").  Falls back to the pinned name.
+func fieldInfoField(p *eng.Prog, role string) string {
+	byType := func(pred func(types.Type) bool) string {
+		if n := structFieldByType(p, setecPkg, "fieldInfo", pred); n != "" {
+			return n
+		}
+		return role
+	}
+	switch role {
+	case "vtype":
+		return byType(func(t types.Type) bool { return eng.IsNamed(t, "reflect", "Type") })
+	case "value":
+		return byType(func(t types.Type) bool { return eng.IsNamed(t, "reflect", "Value") })
+	case "isJSON":
+		return byType(func(t types.Type) bool {
+			b, ok := t.Underlying().(*types.Basic)
+			return ok && b.Kind() == types.Bool
+		})
+	case "unmarshal":
+		return byType(func(t types.Type) bool { _, ok := t.Underlying().(*types.Signature); return ok })
+	case "secretName", "fieldName":
+		// the string fields, told apart by what parseFields stores into them
+		fromReflectName := map[string]bool{}
+		var strs []string
+		if n := p.Named(setecPkg, "fieldInfo"); n != nil {
+			if st, ok := n.Underlying().(*types.Struct); ok {
+				for i := 0; i < st.NumFields(); i++ {
+					if isStringType(st.Field(i).Type()) {
+						strs = append(strs, st.Field(i).Name())
+					}
+				}
+			}
+		}
+		for _, f := range p.PkgFuncs(setecPkg) {
+			for _, a := range eng.FieldAccesses(f) {
+				if a.Kind != "store" || !eng.IsNamed(a.Field.Owner, setecPkg, "fieldInfo") {
+					continue
+				}
+				if st, ok := a.In.(*ssa.Store); ok {
+					if fr, _, isF := eng.LoadedField(st.Val); isF && fr.Name == "Name" && eng.IsNamed(fr.Owner, "reflect", "StructField") {
+						fromReflectName[a.Field.Name] = true
+					}
+				}
+			}
+		}
+		if len(strs) == 2 && len(fromReflectName) == 1 {
+			for _, s := range strs {
+				if fromReflectName[s] == (role == "fieldName") {
+					return s
+				}
+			}
+		}
+		return role
+	}
+	return role
+}
+
+// storeField: the scalar fields of setec.Store by role (each has a type no
+// other field of Store has): "expiryAge" the Duration, "allowLookup" the bool,
+// "timeNow" the func() time.Time, "newTicker" the func(Duration) Ticker,
+// "cache" the Cache, "client" the StoreClient.  Falls back to the pinned name.
+func storeField(role string) string {
+	p := curProg
+	if p == nil {
+		return role
+	}
+	by := func(pred func(types.Type) bool) string {
+		if n := structFieldByType(p, setecPkg, "Store", pred); n != "" {
+			return n
+		}
+		return role
+	}
+	sigOf := func(t types.Type) *types.Signature {
+		s, _ := t.Underlying().(*types.Signature)
+		return s
+	}
+	switch role {
+	case "expiryAge":
+		return by(func(t types.Type) bool { return eng.IsNamed(t, "time", "Duration") })
+	case "allowLookup":
+		return by(func(t types.Type) bool {
+			b, ok := t.Underlying().(*types.Basic)
+			return ok && b.Kind() == types.Bool
+		})
+	case "timeNow":
+		return by(func(t types.Type) bool {
+			s := sigOf(t)
+			return s != nil && s.Params().Len() == 0 && s.Results().Len() == 1 && eng.IsNamed(s.Results().At(0).Type(), "time", "Time")
+		})
+	case "newTicker":
+		return by(func(t types.Type) bool {
+			s := sigOf(t)
+			return s != nil && s.Params().Len() == 1 && eng.IsNamed(s.Params().At(0).Type(), "time", "Duration") && s.Results().Len() == 1
+		})
+	case "cache":
+		return by(func(t types.Type) bool { return eng.IsNamed(t, setecPkg, "Cache") })
+	case "client":
+		return by(func(t types.Type) bool { return eng.IsNamed(t, setecPkg, "StoreClient") })
+	}
+	return role
+}
